@@ -52,7 +52,10 @@ if sc.get('out_is_dir'):                       # the output path exists and is a
     tgt = os.path.join(w, sc['out_is_dir']); os.unlink(tgt) if os.path.exists(tgt) else None; os.makedirs(tgt)
 args = [os.path.join(src, 'chibicc')] + {'E': ['-E'], 'S': ['-S'], 'C': ['-c'], 'L': []}[sc['mode']] + (['-o', sc.get('out_path', 'out.bin')] if sc['has_o'] else []) + names
 env = dict(os.environ, PATH=sh + ':' + os.environ['PATH'])
-p = subprocess.run(args, cwd=w, env=env, capture_output=True, timeout=60)
+if sc.get('stdout_full'):                     # standard output that cannot be written (short outputs sit in the stdio buffer until exit)
+    p = subprocess.run(args, cwd=w, env=env, stdout=open('/dev/full', 'w'), stderr=subprocess.PIPE, timeout=60); p.stdout = b''
+else:
+    p = subprocess.run(args, cwd=w, env=env, capture_output=True, timeout=60)
 after = {c: rd(c) for c in os.listdir(w)}
 cnt = lambda n: int(open('/tmp/shims/%s.count' % n).read()) if os.path.exists('/tmp/shims/%s.count' % n) else 0
 print(json.dumps(dict(exit=p.returncode, changed=sorted(c for c in after if before.get(c) != after[c]),
